@@ -96,7 +96,7 @@ def _rank(name):
     return "xyzwv".index(name) if name in "xyzwv" else 99
 
 
-def _attr_like_global(defs, rng):
+def _attr_like_global(defs, rng, calls=True):
     """Attribute access whose attribute is spelled like a global name of the space: a reference
     `n` of space S' is bound to another space T' that has a member (cells or integer reference)
     also called `n`, and a formula of S' uses `n.n` / `n.n(...)`.  The transformer must rewrite
@@ -132,7 +132,7 @@ def _attr_like_global(defs, rng):
         for tgt in spaces:
             if tgt in family:
                 continue
-            for n in sorted(cells_at[tgt]):
+            for n in (sorted(cells_at[tgt]) if calls else []):
                 if n not in taken and n not in used and n not in defs["grefs"]:
                     users = [c for c in sorted(cells_at[owner]) if _rank(c) > _rank(n)]
                     if users:
@@ -283,7 +283,10 @@ def make_program(kind, seed, extra=()):
             if "o" in refs_at[("P",)] and ("P", "C") in refs_at and rng.random() < 0.7:
                 refs_at[("P", "C")]["o"] = copy.deepcopy(refs_at[("P",)]["o"])
     if kind in ("static", "inh") and rng.random() < 0.6:
-        attr_like = _attr_like_global(defs, rng)
+        # (inheritance world: `n.n` reads only -- its formulas reach members of other spaces by
+        #  name whether they exist or not, and CALLING what has become a space-valued reference
+        #  is an AttributeError in the model but a TypeError for the oracle and the package)
+        attr_like = _attr_like_global(defs, rng, calls=(kind == "static"))
     # --- restriction to the export subset (see ASSUMPTIONS in eng_export.py) ---
     for f in defs["flib"].values():
         if "pfrefs" not in extra and f.get("style") == "pf":
